@@ -183,7 +183,14 @@ def do_write(run, cfg, s, how, data, obj=False):
     exists = run.store.exists(cfg, s)
     sv = X.sid(s) if obj else s
     if how == "set":
-        e = X.meth(writer(cfg), "set", sv, **data)
+        ks = list(data)
+        if ks and (sum(map(len, ks)) + len(ks)) % 3 == 0:
+            # the documented other spelling: set(sid, attribute, value, **more)
+            rest = {k: data[k] for k in ks[1:]}
+            e = X.meth(writer(cfg), "set", sv, ks[0], data[ks[0]], **rest)
+            run.probes["set_spelled_attribute_value"] += 1
+        else:
+            e = X.meth(writer(cfg), "set", sv, **data)
     else:
         e = X.meth(writer(cfg), "update", sv, X.lit(data))
     obs = run.do(e)
